@@ -3,6 +3,7 @@
   The model sorts (distance², index) pairs; the k-d tree of the implementation is trusted to return "the k nearest"
   (ties in distance excluded from the comparison, as the property states).
 -/
+import VerdeModel.Gen.Neighbors
 import VerdeModel.Model.Neighbors
 import VerdeModel.Lemmas.MinMax
 import Mathlib.Analysis.SpecialFunctions.Sqrt
@@ -159,5 +160,46 @@ example : (sortedByDist [0, 1, 5] [0, 1, 5] (1, 1)).head? = some (0, 1) :=
     | 2, h, _ => simp at h; subst h; decide
     | j + 3, h, _ => simp at h)
 example : keyLe (2, 2) (18, 1) = true ∧ keyLe (2, 1) (2, 2) = true ∧ keyLe (2, 2) (2, 1) = false := by decide +kernel
+
+/-! ### Bridge: the index plumbing of `KNeighbors.predict` regenerated from source -/
+
+/-- The k-d tree contract: per query point the indices of its k nearest data points, nearest first; a flat array when k = 1. -/
+def treeQuery (es ns : List Rat) (qs : List (Rat × Rat)) (k : Nat) : Gen.QueryIdx :=
+  if k = 1 then .flat (qs.map fun q => ((kNearest es ns q 1).map (·.2)).headD 0)
+  else .rows (qs.map fun q => (kNearest es ns q k).map (·.2))
+
+theorem kNearest_one (es ns : List Rat) (q : Rat × Rat) (hne : es.zip ns ≠ []) : ∃ x, kNearest es ns q 1 = [x] := by
+  unfold kNearest sortedByDist
+  have hlen : ((((es.zip ns).zipIdx).map fun (p, i) => (sqDist q.1 q.2 p.1 p.2, i)).mergeSort keyLe).length = (es.zip ns).length := by
+    simp [List.length_mergeSort]
+  cases hs : (((es.zip ns).zipIdx).map fun (p, i) => (sqDist q.1 q.2 p.1 p.2, i)).mergeSort keyLe with
+  | nil =>
+    rw [hs] at hlen
+    exact absurd (List.length_eq_zero_iff.mp hlen.symm) hne
+  | cons x rest => exact ⟨x, by simp⟩
+
+/-- **Bridge.**  `KNeighbors.predict` after the tree query, as regenerated STATEMENT BY STATEMENT from /repo's source text on every run — the second
+    value of `query(..., k=self.k)`, the `indices.ndim == 1` → one-column branch (SciPy's k = 1 form), `self.data_[indices.ravel()]` reshaped to the
+    index array's shape, `self.reduction(neighbor_values, axis=1)` with the axis read from the source — is the model's "reduction of the values
+    of the k nearest", for every data set, k, reduction and query list, given the tree contract (`treeQuery`). -/
+theorem gen_knn_predict_eq_model (es ns data : List Rat) (k : Nat) (red : Red) (qs : List (Rat × Rat)) (hne : es.zip ns ≠ [] ∨ k ≠ 1) :
+    Gen.knnPredict (treeQuery es ns qs) data k red = knnPredict es ns data k red qs := by
+  unfold Gen.knnPredict knnPredict treeQuery
+  by_cases hk : k = 1
+  · subst hk
+    have hne' : es.zip ns ≠ [] := by
+      rcases hne with h | h
+      · exact h
+      · exact absurd rfl h
+    simp only [if_true, List.map_map]
+    apply List.map_congr_left
+    intro q _
+    obtain ⟨x, hx⟩ := kNearest_one es ns q hne'
+    simp [Function.comp, hx]
+  · simp only [hk, if_false, List.map_map]
+    apply List.map_congr_left
+    intro q _
+    simp only [Function.comp, List.map_map]
+    rfl
 
 end Verde.C15
